@@ -34,3 +34,8 @@ Definition run_elgauss1 mean var s :=
 Definition run_elmodel (ml me mt mr bv : float) := eloss_model ml me mt mr bv.
 Definition run_elurban (me sc b0 b1 x0 x1 xi : float) s :=
   fin (fun x => [x]) s (eloss_urban (T:=float) (Urban me sc b0 b1 x0 x1 xi) s).
+
+(** Urban constructor: state (7 values) + branch id *)
+Definition run_elurban_ctor (i li b0 b1 l0 l1 f0 f1 mean me tmb bsq : float) :=
+  let '(u, br) := urban_construct (T:=float) (UrbanMat i li b0 b1 l0 l1 f0 f1) mean me tmb bsq in
+  ([ub_max_energy u; ub_scaling u; ub_be0 u; ub_be1 u; ub_xs0 u; ub_xs1 u; ub_xs_ion u], br).
